@@ -168,6 +168,13 @@ func execLabelRaw(op string, args []string) string {
 				if i := atoi(f[1]); i < len(l.Labels) {
 					l.Labels = append(l.Labels[:i], l.Labels[i+1:]...)
 				}
+			case "f":
+				// the method on the populated set
+				if err := l.FromBytes(unhx(f[1])); err != nil {
+					outs = append(outs, "f-err")
+				} else {
+					outs = append(outs, "f-ok")
+				}
 			}
 		}
 		return "ok " + strings.Join(outs, " ")
@@ -210,6 +217,22 @@ func genLabSeq(r *Rng) (string, []string) {
 				ops = append(ops, "a:"+showNames(nm[:1]))
 			}
 		case 5:
+			if r.Bool() {
+				// decode other bytes into the same set: mostly rejected ones, which
+				// must leave the set as it was (seeded change C19-5)
+				var b []byte
+				if r.Chance(2, 3) {
+					b, _ = genLabelWire(r)
+				} else {
+					b, _ = genParsableWire(r)
+				}
+				if l, err := rfc1035label.FromBytes(b); err == nil {
+					names = append([]string(nil), l.Labels...)
+					orig = append([]string(nil), l.Labels...)
+				}
+				ops = append(ops, "f:"+hx(b))
+				break
+			}
 			// restore the names the set was parsed with
 			names = append([]string(nil), orig...)
 			ops = append(ops, "r:"+showNames(orig))
@@ -950,6 +973,7 @@ func oracleC19(r *Rng, n int, thorough bool, seeds []string) *OracleResult {
 			var l *rfc1035label.Labels
 			var orig []byte
 			var parsed []string
+			args0 := args[0] // "new" until the set has been decoded into
 			if args[0] == "new" {
 				l = rfc1035label.NewLabels()
 			} else {
@@ -969,7 +993,7 @@ func oracleC19(r *Rng, n int, thorough bool, seeds []string) *OracleResult {
 					out := l.ToBytes()
 					cur := append([]string{}, l.Labels...)
 					var want []byte
-					if args[0] != "new" && sameNames(parsed, cur) {
+					if args0 != "new" && sameNames(parsed, cur) {
 						want = orig
 					} else {
 						fresh := rfc1035label.NewLabels()
@@ -995,6 +1019,27 @@ func oracleC19(r *Rng, n int, thorough bool, seeds []string) *OracleResult {
 				case "d":
 					if i := atoi(f[1]); i < len(l.Labels) {
 						l.Labels = append(l.Labels[:i], l.Labels[i+1:]...)
+					}
+				case "f":
+					nb := unhx(f[1])
+					want, ok := refDecode(nb)
+					before := append([]string{}, l.Labels...)
+					err := l.FromBytes(append([]byte{}, nb...))
+					switch {
+					case ok && err != nil:
+						return fmt.Sprintf("step %d: RFC reading %s rejected: %v", k, showNames(want), err), "label-decode-rejects"
+					case !ok && err == nil:
+						return fmt.Sprintf("step %d: no RFC reading of %s, yet decoded", k, hx(nb)), "label-decode-accepts"
+					case ok:
+						if !sameNames(want, l.Labels) {
+							return fmt.Sprintf("step %d: decoded to %s, RFC reading is %s", k, showNames(l.Labels), showNames(want)), "label-decode-names"
+						}
+						args0 = "parsed"
+						orig, parsed = nb, append([]string{}, l.Labels...)
+					default:
+						if !sameNames(before, l.Labels) {
+							return fmt.Sprintf("step %d: a rejected decode changed the names to %s", k, showNames(l.Labels)), "label-history"
+						}
 					}
 				}
 			}
